@@ -115,3 +115,43 @@ Theorem C05_F6_rebase_overlap :
   length (all_recs (dsegs d1)) <> length (all_recs (pre ++ mkSeg b' V2 keep (Some ix) :: post)).
 Proof. exact rebase_crash_overlap. Qed.
 Print Assumptions C05_F6_rebase_overlap.
+
+(* rollover (and every other creation of a new empty head at NextOffset): the log file appears, then the index file;
+   after any prefix of the two steps the directory is well formed and holds the same log *)
+Theorem C05_create_head_crash_safe :
+  forall pre hd v tmp, DirInv (pre ++ [hd]) -> srecs hd <> [] ->
+  forall k, let d := fs_run (mkDir (pre ++ [hd]) tmp) (firstn k (create_head (ReaderProofs.recs_next hd) v)) in
+  DirInv (dsegs d) /\ abs_dir (dsegs d) = abs_dir (pre ++ [hd]).
+Proof. exact create_head_crash_safe. Qed.
+Print Assumptions C05_create_head_crash_safe.
+
+(* the directory steps of a Publish on any state with Inv (publish_prog: none, or those of a rollover), cut anywhere *)
+Theorem C05_publish_dir_steps_crash_safe :
+  forall c st k, Inv st -> opened st = Some c ->
+  let d := fs_run (mkDir (segs st) (mkTmp None None)) (firstn k (publish_prog st)) in
+  DirInv (dsegs d) /\ abs_dir (dsegs d) = abs st.
+Proof. exact publish_prog_crash_safe. Qed.
+Print Assumptions C05_publish_dir_steps_crash_safe.
+
+(* Delete of every message of the WRITING segment: new head at NextOffset first, then the old files go (repair F8) *)
+Theorem C05_head_all_crash_safe :
+  forall pre hd v, DirInv (pre ++ [hd]) -> srecs hd <> [] ->
+  forall tmp k,
+  crash_ok (pre ++ [hd]) (pre ++ [mkSeg (ReaderProofs.recs_next hd) v [] (Some (v, []))])
+           (fs_run (mkDir (pre ++ [hd]) tmp) (firstn k (prog_head_all (sbase hd) (ReaderProofs.recs_next hd) v))).
+Proof. exact head_all_crash_safe. Qed.
+Print Assumptions C05_head_all_crash_safe.
+
+(* Delete in the WRITING segment of a set with the newest but not the first message: new head, then the in-place swap *)
+Theorem C05_head_tail_override_crash_safe :
+  forall (H : bytes -> Z) pre hd v, DirInv (pre ++ [hd]) -> srecs hd <> [] ->
+  forall keep p,
+  (forall m, In m keep -> In m (srecs hd)) -> SegProofs.recs_sorted keep ->
+  match keep with [] => False | m :: _ => moff m = sbase hd end ->
+  forall k,
+  let ix := (sver hd, derive H p (sver hd) keep) in
+  let n := ReaderProofs.recs_next hd in
+  crash_ok (pre ++ [hd]) (pre ++ mkSeg (sbase hd) (sver hd) keep (Some ix) :: [mkSeg n v [] (Some (v, []))])
+           (fs_run (mkDir (pre ++ [hd]) (mkTmp (Some keep) (Some ix))) (firstn k (prog_head_tail_override (sbase hd) n v))).
+Proof. exact head_tail_override_crash_safe. Qed.
+Print Assumptions C05_head_tail_override_crash_safe.
